@@ -2,6 +2,7 @@ package main
 
 import (
 	"encoding/json"
+	"go/ast"
 	"fmt"
 	"os"
 	"path/filepath"
@@ -17,6 +18,9 @@ import (
 // helpers whose removal lowers it further are taken out again. Two candidate orders are tried.
 func searchNormalForm(p *core.Prog, c0 *core.Ctx, kf *core.KnownFindings, runAt func(*core.Prog) *core.Ctx) (*core.Ctx, *core.Prog, string) {
 	cands := p.Helpers(core.MaxInlineLevel)
+	if os.Getenv("NL_DEBUG_STEMS") != "" {
+		fmt.Fprintf(os.Stderr, "candidates: %v\n", cands)
+	}
 	score := func(x *core.Ctx) int {
 		n := 0
 		for _, o := range x.Finish(kf).Violations {
@@ -49,24 +53,55 @@ func searchNormalForm(p *core.Prog, c0 *core.Ctx, kf *core.KnownFindings, runAt 
 	for _, h := range cands {
 		singles = append(singles, []string{h})
 	}
-	orders := [][][]string{append(append([][]string{}, singles...), typeGroups...), append(append([][]string{}, typeGroups...), singles...)}
+	// a helper together with the helpers it calls (a refactoring often extracts two layers at once)
+	callees := p.HelperCallees(cands)
+	var chainGroups [][]string
+	for _, h := range cands {
+		base := h
+		if i := strings.Index(h, "@"); i > 0 {
+			base = h[:i]
+		}
+		seen := map[string]bool{h: true}
+		work := []string{base}
+		grp := []string{h}
+		for len(work) > 0 && len(grp) < 8 {
+			x := work[len(work)-1]
+			work = work[:len(work)-1]
+			for _, c := range callees[x] {
+				if !seen[c] {
+					seen[c] = true
+					grp = append(grp, c)
+					cb := c
+					if i := strings.Index(c, "@"); i > 0 {
+						cb = c[:i]
+					}
+					work = append(work, cb)
+				}
+			}
+		}
+		if len(grp) > 1 {
+			chainGroups = append(chainGroups, grp)
+		}
+	}
+	orders := [][][]string{
+		append(append(append([][]string{}, singles...), chainGroups...), typeGroups...),
+		append(append(append([][]string{}, typeGroups...), chainGroups...), singles...),
+	}
 	runs := 0
-	bestOverall := score(c0)
 	base := refStems[c0.Property]
 	full := score
 	score = func(x *core.Ctx) int {
 		n := full(x)
-		if n == 0 {
-			// a form is only accepted when nothing that was examined on the program as written has
-			// dropped out of sight in it (an obligation that vanishes is not an obligation discharged)
-			ms := missingStems(base, x)
-			n += len(ms)
-			if os.Getenv("NL_DEBUG_STEMS") != "" && len(ms) > 0 {
-				fmt.Fprintf(os.Stderr, "form %v rejected, missing stems: %v\n", x.P.Inlined, ms)
-			}
+		// a form is only accepted when no obligation kind of the reference list has dropped out of sight
+		// in it (an obligation that vanishes is not an obligation discharged); counting the missing kinds in
+		// every score lets the greedy search make progress on them too
+		ms := missingStems(base, x)
+		if n == 0 && os.Getenv("NL_DEBUG_STEMS") != "" && len(ms) > 0 {
+			fmt.Fprintf(os.Stderr, "form %v rejected, missing stems: %v\n", x.P.Inlined, ms)
 		}
-		return n
+		return n + len(ms)
 	}
+	bestOverall := score(c0)
 	eval := func(set map[string]bool) (*core.Ctx, *core.Prog, int) {
 		q, err := p.WithInlinedSet(core.MaxInlineLevel, set)
 		if err != nil || len(q.Inlined) == 0 {
@@ -74,7 +109,11 @@ func searchNormalForm(p *core.Prog, c0 *core.Ctx, kf *core.KnownFindings, runAt 
 		}
 		runs++
 		c2 := runAt(q)
-		return c2, q, score(c2)
+		sc := score(c2)
+		if os.Getenv("NL_DEBUG_STEMS") == "2" {
+			fmt.Fprintf(os.Stderr, "form %v -> score %d (violations %d, missing %v)\n", q.Inlined, sc, len(c2.Finish(kf).Violations), missingStems(base, c2))
+		}
+		return c2, q, sc
 	}
 	for _, groups := range orders {
 		set := map[string]bool{}
@@ -136,11 +175,14 @@ func searchNormalForm(p *core.Prog, c0 *core.Ctx, kf *core.KnownFindings, runAt 
 }
 
 // stem of an obligation key: the key without the segments that name functions (which inlining moves).
-func stem(key string) string {
+func stem(key string, fnNames map[string]bool) string {
 	var out []string
 	for _, seg := range strings.Split(key, "/") {
 		if strings.ContainsAny(seg, "($[.") {
 			continue
+		}
+		if fnNames[seg] {
+			continue // an unexported package-level function of the analysed program
 		}
 		// "#2" only enumerates the instances of one construct
 		if i := strings.LastIndex(seg, "#"); i > 0 {
@@ -161,11 +203,17 @@ func stem(key string) string {
 
 func stems(c *core.Ctx) map[string]bool {
 	m := map[string]bool{}
+	fnNames := map[string]bool{}
+	for _, fn := range c.P.Funcs {
+		if fn.Parent() == nil && fn.Signature.Recv() == nil && fn.Name() != "" && !ast.IsExported(fn.Name()) {
+			fnNames[fn.Name()] = true
+		}
+	}
 	for _, o := range c.Obs {
 		if strings.Contains(o.Key, "<floor>") || strings.Contains(o.Key, "/anchors/") || strings.Contains(o.Key, "/internal/") {
 			continue
 		}
-		m[stem(o.Key)] = true
+		m[stem(o.Key, fnNames)] = true
 	}
 	return m
 }
